@@ -8,7 +8,9 @@ Import ListNotations.
 Open Scope Z_scope.
 
 Inductive case :=
-| CHist (ops : list op) (obs : list (list Z)).
+| CHist (ops : list op) (obs : list (list Z))
+(* prefix, then vm2 := vm.Copy(), then operations on either runtime, both observed after each *)
+| CFork (prefix : list op) (ops : list (bool * op)) (obs : list (list Z)).
 
 Definition llz_eqb := list_eqb zlist_eqb.
 
@@ -44,26 +46,43 @@ Fixpoint ops_ok (s : state) (ops : list op) : bool :=
    1 writable lost, 2 for-in ignores shadowing, 3 getter pair under a data mode (Go panic),
    4 accessor with neither getter nor setter reported without get/set, 5 defineProperties
    converts and defines entry by entry, 6 for-in reads the order array shifted by a delete *)
+Fixpoint fork_ok (sa sb : state) (ops : list (bool * op)) : bool :=
+  match ops with
+  | [] => true
+  | (side, o) :: ops' =>
+      let s := if side then sb else sa in
+      let s' := fst (step s o) in
+      op_ok s o && fork_ok (if side then sa else s') (if side then s' else sb) ops'
+  end.
+
 Definition bools : list bool := [false; true].
 Definition variants : list fixes :=
   flat_map (fun a => flat_map (fun b => flat_map (fun c => map (fun d => mkFx a b c d) bools) bools) bools) bools.
 
 (* the model as the tree stands first; if the observation differs, the model with any subset of
    the proposed repairs applied (each replaces one recorded deviation by the ES5 behaviour) *)
-Fixpoint first_match (obs : list (list Z)) (ops : list op) (vs : list fixes) : option (list (list Z) * Z) :=
+Fixpoint first_match (obs : list (list Z)) (model : fixes -> list (list Z) * Z) (vs : list fixes)
+  : option (list (list Z) * Z) :=
   match vs with
   | [] => None
-  | fx :: vs' => let r := mrun fx minit ops in
-                 if llz_eqb obs (fst r) then Some r else first_match obs ops vs'
+  | fx :: vs' => let r := model fx in
+                 if llz_eqb obs (fst r) then Some r else first_match obs model vs'
   end.
+
+Definition judge_with (obs : list (list Z)) (model : fixes -> list (list Z) * Z) (spec : list (list Z)) : Z * Z :=
+  let '(m, tag) := match first_match obs model variants with
+                   | Some r => r
+                   | None => model nofix
+                   end in
+  judge llz_eqb obs m spec tag.
 
 Definition verdict (c : case) : Z * Z :=
   match c with
   | CHist ops obs =>
       if negb (ops_ok init ops) then declined
-      else let '(m, tag) := match first_match obs ops variants with
-                            | Some r => r
-                            | None => mrun nofix minit ops
-                            end in
-           judge llz_eqb obs m (run init ops) tag
+      else judge_with obs (fun fx => mrun fx minit ops) (run init ops)
+  | CFork prefix ops obs =>
+      let s := exec init prefix in
+      if negb (ops_ok init prefix && fork_ok s s ops) then declined
+      else judge_with obs (fun fx => mrun_fork fx prefix ops) (run_fork prefix ops)
   end.
